@@ -924,7 +924,7 @@ pub fn catalogue_component(kind: &str) -> Value {
     }
 }
 
-const WXS_INLINE: &str = "exports.j = function(a){ return JSON.stringify(a) }; exports.j.__id = 'index#m:j'; exports.f = function(a){ return 'f(' + a + ')' }; exports.f.__id = 'index#m:f'; exports.o = { g: function(a){ return 'g' } }; exports.o.g.__id = 'index#m:o.g'; exports.k = 7";
+const WXS_INLINE: &str = "exports.j = function(a){ return JSON.stringify(a) }; exports.j.__id = '@PATH@#m:j'; exports.f = function(a){ return 'f(' + a + ')' }; exports.f.__id = '@PATH@#m:f'; exports.o = { g: function(a){ return 'g' } }; exports.o.g.__id = '@PATH@#m:o.g'; exports.k = 7";
 const WXS_EXT: &str = "exports.j = function(a){ return JSON.stringify(a) }; exports.j.__id = 'utils/s:j'; exports.f = function(a){ return 's(' + a + ')' }; exports.f.__id = 'utils/s:f'; exports.o = { g: function(a){ return 'sg' } }; exports.o.g.__id = 'utils/s:o.g'; exports.k = 9";
 
 // ---------------------------------------------------------------------------------------------
@@ -981,12 +981,20 @@ pub fn generate_with(seed: u64, prop: Prop, deep: bool) -> World {
         modules.push("ms".to_string());
     }
 
-    let mut root = TFile { path: "index".into(), style: if rs.chance(0.6) { rs.below(64) as u32 } else { 0 }, ..Default::default() };
+    // the root template sometimes lives in a sub-directory (relative references then climb)
+    let root_path: String = if rc.chance(0.3) { "pages/main/index".into() } else { "index".into() };
+    let up = if root_path.contains('/') { "../../" } else { "" };
+    let mut root = TFile { path: root_path.clone(), style: if rs.chance(0.6) { rs.below(64) as u32 } else { 0 }, ..Default::default() };
     if with_inline {
-        root.wxs_inline.push(("m".into(), WXS_INLINE.into()));
+        root.wxs_inline.push(("m".into(), WXS_INLINE.replace("@PATH@", &root_path)));
     }
     if with_ext {
-        root.wxs_ext.push(("ms".into(), (*rt.pick(&["/utils/s", "utils/s.wxs", "./utils/s"])).to_string()));
+        let spell = match rt.below(3) {
+            0 => "/utils/s".to_string(),
+            1 => format!("{}utils/s.wxs", up),
+            _ => format!("./{}utils/s", up),
+        };
+        root.wxs_ext.push(("ms".into(), spell));
     }
     let mut ctx = Ctx { r: &mut rt, f: f.clone(), scope: vec![], in_template: false, modules: modules.clone(), budget: size, prop, used_comps: vec![], used_index_reads: false, allow_nested_template: false };
     let mut body = ctx.nodes(0);
@@ -1012,7 +1020,12 @@ pub fn generate_with(seed: u64, prop: Prop, deep: bool) -> World {
         ctx.allow_nested_template = true;
         l.templates.push(mk(&mut ctx, "t2"));
         ctx.allow_nested_template = false;
-        root.imports.push((*ctx.r.pick(&["/lib/tpls", "lib/tpls.wxml", "./lib/tpls"])).to_string());
+        let spell = match ctx.r.below(3) {
+            0 => "/lib/tpls".to_string(),
+            1 => format!("{}lib/tpls.wxml", up),
+            _ => format!("./{}lib/tpls", up),
+        };
+        root.imports.push(spell);
         if ctx.r.chance(0.3) {
             // a local definition shadows the imported one
             root.templates.push(mk(&mut ctx, "t1"));
@@ -1048,7 +1061,7 @@ pub fn generate_with(seed: u64, prop: Prop, deep: bool) -> World {
         components.push(catalogue_component(k));
         using.insert(k.clone(), json!(k));
     }
-    components.push(json!({"is": "root", "path": "index", "root": true, "using": using, "methods": ["h1", "h2"]}));
+    components.push(json!({"is": "root", "path": root_path, "root": true, "using": using, "methods": ["h1", "h2"]}));
     let mut scripts = vec![];
     if with_ext {
         scripts.push(("utils/s".to_string(), WXS_EXT.to_string()));
@@ -1109,6 +1122,7 @@ pub fn generate_with(seed: u64, prop: Prop, deep: bool) -> World {
         config,
         schedule,
         indexed_lists,
-        script_values: json!({"index#m:k": 7, "utils/s:k": 9}),
+        script_values: json!({format!("{}#m:k", root_path): 7, "utils/s:k": 9}),
+        root_path,
     }
 }
